@@ -199,8 +199,8 @@ def gen_tebd_case(rng: random.Random, trunc: bool) -> Dict[str, Any]:
             "via": rng.choice(["steps", "from_lists"]), "svd": None}
     if trunc:
         case["svd"] = {"max_bond_dim": rng.randint(1, 4),
-                       "rel_tol": rng.choice([1e-15, 1e-6, 1e-2, 0.3]),
-                       "total_tol": rng.choice([1e-15, 1e-6, 1e-2, 0.3]),
+                       "rel_tol": rng.choice([float("-inf"), 0.0, 1e-15, 1e-6, 1e-2, 0.3]),
+                       "total_tol": rng.choice([float("-inf"), 0.0, 1e-15, 1e-6, 1e-2, 0.3]),
                        "renorm": rng.random() < 0.3, "sum_trunc": rng.random() < 0.3}
     return case
 
